@@ -493,7 +493,22 @@ class ResAdapter:
         def upd(o, s, rng):
             s["R"] = self._res(rng, s["A"])
             o.update_resistances(s["R"].copy())
-        return [("update_resistances", upd)]
+        def rewire(o, s, rng):
+            # a new topology on the same nodes (links removed and added),
+            # then the resistances of the new links
+            n = len(s["A"])
+            for _ in range(20):
+                A = graphs.random_graph(rng, n, 0.5, False)
+                if graphs.connected(A) and not np.array_equal(A, s["A"]):
+                    break
+            else:
+                return False
+            s["A"] = A
+            s["R"] = self._res(rng, A)
+            o.adjacency = A.copy()
+            o.update_resistances(s["R"].copy())
+        return [("update_resistances", upd),
+                ("adjacency.setter + update_resistances", rewire)]
 
     def queries(self, obj):
         n = obj.N
